@@ -9,22 +9,49 @@ PROPERTY = "C13"
 LEVEL = "proof"
 LEAN_MODULES = ["Exetera.Props.C13"]
 EXHAUSTIVE = {"quick": False, "thorough": True}
-TECHNIQUE = "Lean 4 theorems (decide +kernel over the regenerated dispatch tables, numpy opaque) + translator + differential run against numpy"
-LEVEL_TEXT = ("Proof over the regenerated operator tables: for every field class and every operator it supports, for every numpy, "
-              "the forward form applies the documented symbol to (self, other), the reflected form to (other, self), the result is a "
-              "fresh in-memory field, and its declared dtype is numpy's: the regenerated `dtype_to_str` chain names each of the 11 result "
-              "dtypes exactly, is injective, and refuses anything else. numpy's arithmetic itself is the property's right-hand side and "
-              "stays opaque.")
+TECHNIQUE = ("Lean 4 theorems over an executable model of the whole operator (Python operator protocol -> dunder -> FieldDataOps method -> "
+             "the REGENERATED bodies of _binary_op / _unary_op / numeric_divmod, interpreted; DataFrame.__setitem__), numpy opaque; "
+             "decide +kernel over the regenerated dispatch tables; translator; differential run of the model (symbolic numpy) "
+             "against the real operators and against numpy")
+LEVEL_TEXT = ("Proof, for every numpy and every heap, over the operator as Python evaluates it: for every field class, every operator "
+              "the class supports and a field / ndarray / scalar on either side (forward, field-field, and `ndarray <op> field` through "
+              "the reflected dunder, which the regenerated `__array_ufunc__ = None` attributes make numpy defer to), the operator returns "
+              "ONE new NumericMemField whose data is `sym(l', r')` on the operands' underlying arrays in the order written and whose "
+              "declared dtype is `dtype_to_str` of numpy's result dtype (operator_result_eq_numpy; reflected_comparison_eq_numpy under "
+              "numpy's mirror law a<b = b>a; unary_table_correct); divmod returns a pair of distinct new fields, the two components of "
+              "one np.divmod call (divmod_returns_pair); every object that existed before — both operands — and every dataframe is "
+              "unchanged whatever is returned (operands_unchanged, _unary); an unnamed result dtype raises ValueError "
+              "(unsupported_dtype_raises); `df[name] = result` creates a NumericField column with exactly the result's dtype name and "
+              "data and leaves the result and the operands unchanged (setitem_stores_result, setitem_existing_name_raises). The helper "
+              "bodies (`_binary_op`, `_unary_op`, `numeric_divmod`: unwrap rule, call of `function`, result class and dtype expression, "
+              "write, return), the dispatch tables, the numpy-protocol attributes and the `dtype_to_str` chain are REGENERATED from the "
+              "source on every run; the regenerated `dtype_to_str` chain names each of the 11 result dtypes exactly, is injective, and "
+              "refuses anything else. numpy's arithmetic itself is the property's right-hand side and stays opaque.")
 LEVEL_NOTE = ("Trusted: Lean kernel; tools/translate.py (AST extraction of the 128-row dunder table, the 18 FieldDataOps methods and "
-              "the two helpers; tools/translate_dtype.py: the dtype_to_str chain); the differential run (all operators x operand kinds x dtype pairs in thorough, a seeded sample in quick) "
-              "for everything not table shaped (unwrap of Field operands, that numpy's `==` identifies a dtype with its scalar type, write of the result, DataFrame.__setitem__).")
-RULE = ("cases = (class in 6 field classes) x (each operator the class supports) x (other operand: NumericMemField / ndarray / scalar) x "
+              "the two helpers), tools/translate_dtype.py (the dtype_to_str chain), tools/translate_fieldops.py (the three helper bodies "
+              "as straight-line programs, `__array_ufunc__` / `__array_priority__` per class, the statement shape of "
+              "DataFrame.__setitem__ and numeric_field_create_like — any other shape fails the extraction); the MEANING the model gives "
+              "to those statements (`FieldOps.step`), Python's operator protocol (`pyDunders`: forward, reflected, mirrored comparison) "
+              "and numpy's deferral rule (`defers`), validated by the differential run: the model is executed on a symbolic numpy, the "
+              "terms it returns are evaluated by the real numpy and compared (data bytes, declared and actual dtype, class, operands "
+              "before/after, stored column) with what the real operator returned (all operators x operand kinds x dtype pairs in "
+              "thorough, a seeded sample in quick). Assumed about numpy: `r.dtype == np.T` holds exactly for arrays of type T; a<b = b>a "
+              "(used only for a comparison with the field on the right); writing an array into an HDF5 dataset of its own dtype stores "
+              "it unchanged. Not modelled: `_ensure_valid` (operators on a deleted field), create_like of categorical / timestamp sources.")
+RULE = ("cases = (class in 6 field classes) x (each operator the class supports; comparisons also with the field on the RIGHT) x (other operand: NumericMemField / ndarray / numpy scalar / Python int / Python float) x "
         "(dtype pairs incl. bool, mixed widths, float with inf, negative divisors) x (data: empty, zeros, mixed signs); quick runs a seeded "
         "sample stratified so that every (class, operator) is hit at least twice; non-trivial = non-empty operands whose result differs "
         "between the forward and the reflected operand order or a unary operator; distinct = distinct case dict.")
 ASSUMPTIONS = ["numpy element-wise arithmetic and promotion (opaque: the property's right-hand side is numpy)",
-               "h5py stores and returns arrays faithfully"]
-TRUSTED = ["Lean 4.33 kernel", "axioms propext/Classical.choice/Quot.sound only", "tools/translate.py", "checks/harness/c13.py"]
+               "h5py stores and returns arrays faithfully; writing an array into a dataset of its own dtype stores it unchanged "
+               "(hypothesis `hcast` of setitem_stores_result)",
+               "numpy's comparisons are mirror-symmetric, a < b = b > a element-wise (hypothesis `MirrorLaw` of "
+               "reflected_comparison_eq_numpy; needed only for `ndarray/scalar <cmp> field`, where Python itself calls the mirrored dunder)",
+               "numpy's `binop_should_defer`: ndarray / numpy-scalar operators return NotImplemented for a right operand whose class "
+               "sets `__array_ufunc__ = None` (modelled by `FieldOps.defers` over the regenerated class attributes)",
+               "`r.dtype == np.T` holds exactly for results of scalar type T (how `dtype_to_str` identifies a dtype)"]
+TRUSTED = ["Lean 4.33 kernel", "axioms propext/Classical.choice/Quot.sound only", "tools/translate.py", "tools/translate_dtype.py",
+           "tools/translate_fieldops.py", "checks/harness/c13.py"]
 
 ARITH10 = ["__add__", "__radd__", "__sub__", "__rsub__", "__mul__", "__rmul__", "__truediv__", "__rtruediv__",
            "__floordiv__", "__rfloordiv__"]
@@ -47,6 +74,11 @@ SYNTAX = {
     "__gt__": lambda f, o: f > o, "__ge__": lambda f, o: f >= o, "__invert__": lambda f, o: ~f,
     "logical_not": lambda f, o: f.logical_not(),
 }
+SWAPPED = {"__lt__": lambda f, o: o < f, "__le__": lambda f, o: o <= f, "__eq__": lambda f, o: o == f,
+           "__ne__": lambda f, o: o != f, "__gt__": lambda f, o: o > f, "__ge__": lambda f, o: o >= f}
+PYOP = {"add": "+", "sub": "-", "mul": "*", "truediv": "/", "floordiv": "//", "mod": "%", "divmod": "divmod", "and": "&",
+        "xor": "^", "or": "|", "lt": "<", "le": "<=", "eq": "==", "ne": "!=", "gt": ">", "ge": ">="}
+MIRROR = {"operator.lt": "operator.gt", "operator.gt": "operator.lt", "operator.le": "operator.ge", "operator.ge": "operator.le"}
 INT_DTYPES = ["int8", "uint8", "int16", "int32", "uint32", "int64"]
 DATASETS = {"mixed": [3, -7, 0, 12, -1, 5], "pos": [1, 2, 3, 4, 5, 6], "empty": [], "zeros": [0, 0, 0, 0, 0, 0]}
 
@@ -83,16 +115,22 @@ def gen_cases(tier, rng):
                                 if sname == "empty" and oname != "mixed":
                                     continue
                                 n += 1
-                                allc.append({"op": "c13_resolve", "cls": cls, "dunder": d, "sdtype": sd, "odtype": od,
+                                allc.append({"op": "c13_run", "cls": cls, "dunder": d, "sdtype": sd, "odtype": od,
                                              "kind": kind, "self": sname, "other": oname, "inf": n % 7 == 0,
-                                             "setitem": n % 11 == 0, "_n": n})
+                                             "setitem": n % 5 == 0, "_n": n})
+                                if d in COMPARE and n % 2 == 0:
+                                    # the same comparison with the field on the RIGHT: `other <op> field`
+                                    n += 1
+                                    allc.append({"op": "c13_run", "cls": cls, "dunder": d, "sdtype": sd, "odtype": od,
+                                                 "kind": kind, "self": sname, "other": oname, "inf": n % 7 == 0,
+                                                 "setitem": n % 5 == 0, "swap": True, "_n": n})
     if tier == "quick":
         # stratified seeded sample: every (class, operator) at least twice
         by = {}
         for c in allc:
-            by.setdefault((c["cls"], c["dunder"]), []).append(c)
+            by.setdefault((c["cls"], c["dunder"], bool(c.get("swap"))), []).append(c)
         for k in sorted(by):
-            cases.extend(rng.sample(by[k], min(len(by[k]), 6)))
+            cases.extend(rng.sample(by[k], min(len(by[k]), 4 if k[2] else 6)))
     else:
         cases.extend(allc)
     return cases
@@ -157,55 +195,81 @@ def tohex(a):
     return a.tobytes().hex()
 
 
-def impl(case):
-    import warnings
-    warnings.simplefilter("ignore")
-    e = _env()
-    np, fields, s = e["np"], e["fields"], e["s"]
+def build_other(np, case, odata, fields=None, s=None):
+    """the non-self operand as the worker hands it to the operator, and its raw value"""
+    kind = case["kind"]
+    if kind == "field":
+        if fields is None:
+            return None, odata
+        other = fields.NumericMemField(s, case["odtype"])
+        other.data.write(odata)
+        return other, odata
+    if kind == "array":
+        return odata.copy(), odata
+    if kind == "scalar":
+        other = odata.dtype.type(odata[1]) if len(odata) > 1 else odata.dtype.type(3)
+        return other, other
+    if kind == "pyint":      # a plain Python int: numpy treats it as a weak scalar (no promotion of narrow dtypes)
+        other = [10, -7, 3][case.get("_n", 0) % 3]
+        return other, other
+    if kind == "pyfloat":
+        other = [2.5, -0.5][case.get("_n", 0) % 2]
+        return other, other
+    return None, None
+
+
+def operand_arrays(np, case):
     sdata = arr(np, case["self"], case["sdtype"], case.get("inf"))
     if len(sdata) == 0:
         odata = arr(np, "empty", case["odtype"])
     else:
         odata = arr(np, case["other"], case["odtype"], case.get("inf"))
+    return sdata, odata
+
+
+def nformat_of(g):
+    return str(getattr(g, "_nformat", None))
+
+
+def impl(case):
+    import warnings
+    warnings.simplefilter("ignore")
+    e = _env()
+    np, fields, s = e["np"], e["fields"], e["s"]
+    sdata, odata = operand_arrays(np, case)
     f, df = make_self(e, case, sdata)
     kind = case["kind"]
-    if kind == "field":
-        other = fields.NumericMemField(s, case["odtype"])
-        other.data.write(odata)
-        other_raw = odata
-    elif kind == "array":
-        other = odata.copy()
-        other_raw = odata
-    elif kind == "scalar":
-        other = odata.dtype.type(odata[1]) if len(odata) > 1 else odata.dtype.type(3)
-        other_raw = other
-    elif kind == "pyint":      # a plain Python int: numpy treats it as a weak scalar (no promotion of narrow dtypes)
-        other = [10, -7, 3][case.get("_n", 0) % 3]
-        other_raw = other
-    elif kind == "pyfloat":
-        other = [2.5, -0.5][case.get("_n", 0) % 2]
-        other_raw = other
-    else:
-        other, other_raw = None, None
+    other, other_raw = build_other(np, case, odata, fields, s)
+    self_before = tohex(f.data[:])
     with np.errstate(all="ignore"):
-        got = SYNTAX[case["dunder"]](f, other)
+        got = (SWAPPED if case.get("swap") else SYNTAX)[case["dunder"]](f, other)
     gots = list(got) if isinstance(got, tuple) else [got]
     out = {"res": [{"dtype": str(g.data[:].dtype), "data": tohex(g.data[:]), "cls": type(g).__name__,
-                    "n": len(g.data[:])} for g in gots]}
-    out["self_unchanged"] = tohex(f.data[:]) == tohex(sdata) and str(f.data[:].dtype) == str(sdata.dtype) or len(sdata) == 0
+                    "n": len(g.data[:]), "nformat": nformat_of(g), "ddtype": str(g.data.dtype)} for g in gots],
+           "tuple": isinstance(got, tuple), "distinct": len({id(g) for g in gots}) == len(gots)}
+    out["self_unchanged"] = bool((tohex(f.data[:]) == tohex(sdata) == self_before and str(f.data[:].dtype) == str(sdata.dtype)
+                                  or len(sdata) == 0) and not any(g is f for g in gots))
     if kind == "field":
-        out["other_unchanged"] = tohex(other.data[:]) == tohex(odata)
+        out["other_unchanged"] = bool(tohex(other.data[:]) == tohex(odata) and str(other.data[:].dtype) == str(odata.dtype)
+                                      and not any(g is other for g in gots))
     elif kind == "array":
-        out["other_unchanged"] = tohex(other) == tohex(odata)
+        out["other_unchanged"] = bool(tohex(other) == tohex(odata) and other.dtype == odata.dtype)
     else:
         out["other_unchanged"] = True
     out["sdata"], out["odata"] = tohex(sdata), (tohex(np.asarray(other_raw)) if other_raw is not None else None)
     out["sdt"], out["odt"] = str(sdata.dtype), (str(np.asarray(other_raw).dtype) if other_raw is not None else None)
     out["scalar"] = kind == "scalar"
     out["py"] = other_raw if kind in ("pyint", "pyfloat") else None
-    if case.get("setitem") and df is not None:
+    if case.get("setitem"):
+        if df is None:
+            df = e["ds"].create_dataframe(f"dfs{e['k']}")
+        before = list(df.keys())
         df["r"] = gots[0]
-        out["stored"] = {"dtype": str(df["r"].data[:].dtype), "data": tohex(df["r"].data[:])}
+        col = df["r"]
+        out["stored"] = {"dtype": str(col.data[:].dtype), "data": tohex(col.data[:]), "cls": type(col).__name__,
+                         "nformat": nformat_of(col), "cols": list(df.keys()), "cols_before": before,
+                         "res_unchanged": bool(tohex(gots[0].data[:]) == out["res"][0]["data"] and col is not gots[0]),
+                         "self_unchanged": bool(tohex(f.data[:]) == self_before)}
     return out
 
 
@@ -269,8 +333,7 @@ def numpy_outcome(case, io, sym, order):
 def operands_of(case):
     """the operands as the worker built them (needed when the field operator raised and returned no operand dump)"""
     import numpy as np
-    sdata = arr(np, case["self"], case["sdtype"], case.get("inf"))
-    odata = arr(np, "empty" if len(sdata) == 0 else case["other"], case["odtype"], case.get("inf"))
+    sdata, odata = operand_arrays(np, case)
     io = {"sdata": tohex(sdata), "sdt": str(sdata.dtype), "scalar": case["kind"] == "scalar", "py": None,
           "odata": None, "odt": None}
     k = case["kind"]
@@ -286,8 +349,16 @@ def operands_of(case):
     return io
 
 
-def check_spec(case, io, mode):
+def spec_of(case):
+    """the property's right-hand side for this case: (symbol, operand order over (self, other))"""
     sym, order = SPEC[case["dunder"]]
+    if case.get("swap"):
+        order = [1, 0]               # `other <op> self`
+    return sym, order
+
+
+def check_spec(case, io, mode):
+    sym, order = spec_of(case)
     if "err" in io:
         kind, res = numpy_outcome(case, operands_of(case), sym, order)
         if kind == "err" and res == io["err"]:
@@ -300,10 +371,187 @@ def check_spec(case, io, mode):
         return f"result differs from numpy {sym}{order}: got {io['res']} want {want}"
     if any(r["cls"] != "NumericMemField" for r in io["res"]):
         return f"result is not a new in-memory numeric field: {[r['cls'] for r in io['res']]}"
+    if any(r.get("nformat", r["dtype"]) != w["dtype"] for r, w in zip(io["res"], want)):
+        return f"result field is declared {[r.get('nformat') for r in io['res']]}, numpy's dtype is {[w['dtype'] for w in want]}"
+    if case["dunder"] in ("__divmod__", "__rdivmod__") and not (io.get("tuple", True) and io.get("distinct", True)):
+        return "divmod did not return a pair of distinct fields"
     if not io["self_unchanged"] or not io["other_unchanged"]:
         return "an operand was modified"
-    if "stored" in io and (io["stored"]["dtype"] != want[0]["dtype"] or io["stored"]["data"] != want[0]["data"]):
-        return "df['r'] = result stored different values"
+    if "stored" in io:
+        st = io["stored"]
+        if st["dtype"] != want[0]["dtype"] or st["data"] != want[0]["data"]:
+            return "df['r'] = result stored different values"
+        if not st.get("res_unchanged", True) or not st.get("self_unchanged", True):
+            return "df['r'] = result modified the result field or an operand"
+    return None
+
+
+def case_inputs(np, case):
+    """numpy values of the model's named inputs: S = the self field's data, O = the other operand"""
+    sdata, odata = operand_arrays(np, case)
+    _, other_raw = build_other(np, case, odata)
+    return {"S": sdata, "O": other_raw}
+
+
+def np_symbol(dt):
+    """how fields.py spells the scalar type a dtype compares equal to"""
+    return "bool" if dt == "bool" else "np." + dt
+
+
+def sym_fn(sym):
+    import numpy as np
+    mod, _, name = sym.partition(".")
+    return getattr(np if mod == "np" else operator, name)
+
+
+def self_nformat(case):
+    if case["cls"].startswith("Numeric"):
+        return case["sdtype"]
+    return "float64" if case["cls"].startswith("Timestamp") else "int8"
+
+
+def to_model(case):
+    """the case for the Lean driver: heap, operands by name, and numpy's result dtypes for the calls the model may make"""
+    import numpy as np
+    import warnings
+    warnings.simplefilter("ignore")
+    d = case["dunder"]
+    unary = d in ("__invert__", "logical_not")
+    flds = [{"id": 0, "cls": case["cls"], "dtype": self_nformat(case), "data": "S"}]
+    m = {"op": "c13_run", "fields": flds}
+    if not case["cls"].endswith("MemField"):
+        m["df_col"] = 0
+    if case.get("setitem"):
+        m["setitem"] = "r"
+    env = case_inputs(np, case)
+    sym = SPEC[d][0]
+    oracle = {}
+    with np.errstate(all="ignore"):
+        if unary:
+            m["pyop"] = "~" if d == "__invert__" else "logical_not"
+            m["self"] = 0
+            try:
+                oracle[f"{sym}(S)"] = np_symbol(str(np.asarray(sym_fn(sym)(env["S"])).dtype))
+            except Exception:  # noqa  numpy itself rejects the operand: no entry
+                pass
+        else:
+            base = d.strip("_")
+            refl = base not in PYOP
+            m["pyop"] = PYOP[base[1:] if refl else base]
+            if case["kind"] == "field":
+                flds.append({"id": 1, "cls": "NumericMemField", "dtype": case["odtype"], "data": "O"})
+                other = {"k": "field", "v": 1}
+            else:
+                other = {"k": "array" if case["kind"] == "array" else "scalar", "v": "O"}
+            me = {"k": "field", "v": 0}
+            m["left"], m["right"] = (other, me) if (refl or case.get("swap")) else (me, other)
+            for sy in sorted({sym, MIRROR.get(sym, sym)}):
+                for a, b in (("S", "O"), ("O", "S")):
+                    try:
+                        r = sym_fn(sy)(env[a], env[b])
+                    except Exception:  # noqa
+                        continue
+                    if isinstance(r, tuple):
+                        for k, x in enumerate(r):
+                            oracle[f"{sy}({a},{b})#{k}"] = np_symbol(str(np.asarray(x).dtype))
+                    else:
+                        oracle[f"{sy}({a},{b})"] = np_symbol(str(np.asarray(r).dtype))
+    m["oracle"] = oracle
+    return m
+
+
+def self_on_left(case):
+    d = case["dunder"]
+    if d in ("__invert__", "logical_not"):
+        return True
+    return not (d.strip("_") not in PYOP or case.get("swap"))
+
+
+def eval_term(t, env):
+    import numpy as np
+    if "in" in t:
+        return env[t["in"]]
+    if "call" in t:
+        return sym_fn(t["call"])(*[eval_term(a, env) for a in t["args"]])
+    if "proj" in t:
+        return eval_term(t["of"], env)[t["proj"]]
+    if "cast" in t:
+        return np.asarray(eval_term(t["of"], env)).astype(t["cast"])
+    if "append" in t:
+        return np.concatenate([np.asarray(eval_term(x, env)) for x in t["append"]])
+    if "zeros0" in t:
+        return np.zeros(0, dtype=t["zeros0"])
+    raise ValueError("unknown term " + str(t))
+
+
+def io_inputs(io):
+    """the named inputs rebuilt from what the worker reports it used"""
+    import numpy as np
+    a = np.frombuffer(bytes.fromhex(io["sdata"]), dtype=io["sdt"])
+    if io.get("py") is not None:
+        b = io["py"]
+    elif io["odata"] is not None:
+        b = np.frombuffer(bytes.fromhex(io["odata"]), dtype=io["odt"])
+        if io["scalar"]:
+            b = b[0]
+    else:
+        b = None
+    return {"S": a, "O": b}
+
+
+def compare_run(case, io, run, sent):
+    """the model's whole-operator run (terms over a symbolic numpy) against what the real operator returned"""
+    import numpy as np
+    import warnings
+    warnings.simplefilter("ignore")
+    env = io_inputs(io)
+    if len(run["res"]) != len(io["res"]):
+        return f"model returns {len(run['res'])} field(s), impl {len(io['res'])}"
+    with np.errstate(all="ignore"):
+        for k, (mr, ir) in enumerate(zip(run["res"], io["res"])):
+            if mr is None:
+                return "model returned a dangling field"
+            if mr["data"] is None:
+                return f"model result {k} holds no data"
+            v = np.asarray(eval_term(mr["data"], env))
+            if str(v.dtype) != ir["dtype"] or v.tobytes().hex() != ir["data"]:
+                return f"result {k}: model term {mr['data']} evaluates to {v.dtype} {v.tobytes().hex()}, impl {ir['dtype']} {ir['data']}"
+            if mr["dtype"] != ir.get("nformat") or mr["dtype"] != ir.get("ddtype"):
+                return f"result {k}: model declares dtype {mr['dtype']}, impl field is declared {ir.get('nformat')}/{ir.get('ddtype')}"
+            if mr["cls"] != ir["cls"]:
+                return f"result {k}: model class {mr['cls']}, impl {ir['cls']}"
+        if len({r["id"] for r in run["res"]}) != len(run["res"]) or not run["fresh"]:
+            return "model returned an existing / repeated field"
+        # operands: the model leaves every pre-existing field as it was; so must the implementation
+        for f in sent["fields"]:
+            after = next((p for p in run["pre"] if p and p["id"] == f["id"]), None)
+            if after is None or (after["cls"], after["dtype"], after["data"]) != (f["cls"], f["dtype"], {"in": f["data"]}):
+                return f"model changed operand field {f['id']}: {after}"
+        if not run["frames_same"]:
+            return "model changed a dataframe"
+        if not (io["self_unchanged"] and io["other_unchanged"]):
+            return "impl modified an operand, the model does not"
+        if "stored" in io or "stored" in run or "setitem_err" in run:
+            if "setitem_err" in run:
+                return f"model: df['r'] = result raises {run['setitem_err']}, impl stored a column"
+            if "stored" not in io or "stored" not in run:
+                return "setitem performed on one side only"
+            ms, st = run["stored"], io["stored"]
+            if ms is None:
+                return "model: column not found after setitem"
+            v = np.asarray(eval_term(ms["data"], env))
+            if str(v.dtype) != st["dtype"] or v.tobytes().hex() != st["data"]:
+                return f"stored column: model {v.dtype} {v.tobytes().hex()}, impl {st['dtype']} {st['data']}"
+            if (ms["cls"], ms["dtype"]) != (st["cls"], st["nformat"]):
+                return f"stored column: model {ms['cls']}({ms['dtype']}), impl {st['cls']}({st['nformat']})"
+            if run["cols"] != st["cols"]:
+                return f"columns after setitem: model {run['cols']}, impl {st['cols']}"
+            want_after = [{"id": f["id"], "cls": f["cls"], "dtype": f["dtype"], "data": {"in": f["data"]}}
+                          for f in sent["fields"]] + run["res"]
+            if run["after"] != want_after:
+                return "model: setitem changed the result field or an operand"
+            if not (st["res_unchanged"] and st["self_unchanged"]):
+                return "impl: setitem changed the result field or an operand, the model does not"
     return None
 
 
@@ -311,17 +559,26 @@ def compare(case, io, mo, mode):
     if "err" in mo:
         return None if "err" in io else f"model: {mo['err']}, impl returned a value"
     sym, order = mo["ok"]["sym"], mo["ok"]["ord"]
+    run, run_err = mo["ok"].get("run"), mo["ok"].get("run_err")
+    if order is not None and mo["ok"].get("disp_left", True) != self_on_left(case):
+        order = [1 - k for k in order]       # the model's order is relative to the dispatching field: make it (self, other)
+    if sym is None:
+        return None if "err" in io and run_err == io["err"] else f"model finds no route ({run_err}), impl: {io.get('err', 'a value')}"
     if "err" in io:
         kind, res = numpy_outcome(case, operands_of(case), sym, order)
-        return None if (kind == "err" and res == io["err"]) else f"impl raised {io['err']} ({io.get('msg')}), model-resolved numpy call: {kind}"
+        if kind == "err" and res == io["err"]:
+            return None                      # numpy itself raises on the routed call; the exception passes through the helper
+        if run_err == io["err"]:
+            return None
+        return f"impl raised {io['err']} ({io.get('msg')}), model-resolved numpy call: {kind}, model run: {run_err or 'ok'}"
     kind, want = numpy_outcome(case, io, sym, order)
     if kind == "err":
         return f"model-resolved numpy call raises {want}, impl returned a value"
-    return None if same(io["res"], want) else f"impl {io['res']} vs model-resolved {mo['ok']} -> {want}"
-
-
-def to_model(case):
-    return {"op": "c13_resolve", "cls": case["cls"], "dunder": case["dunder"]}
+    if not same(io["res"], want):
+        return f"impl {io['res']} vs model-resolved {sym}{order} -> {want}"
+    if run is None:
+        return f"model run raises {run_err}, impl returned a value"
+    return compare_run(case, io, run, to_model(case))
 
 
 def nontrivial(case, mo):
@@ -329,7 +586,14 @@ def nontrivial(case, mo):
 
 
 def classify(case, mo):
-    return [case["cls"], case["dunder"], "kind:" + case["kind"]]
+    tags = [case["cls"], case["dunder"], "kind:" + case["kind"]]
+    if case.get("swap"):
+        tags.append("field-on-the-right:" + case["kind"])
+    elif case["dunder"].startswith("__r"):
+        tags.append("reflected:" + case["kind"])
+    if case.get("setitem"):
+        tags.append("setitem")
+    return tags
 
 
 def select_for_mode(case, mode, tier):
